@@ -23,7 +23,7 @@ For each mutation deliver, in the directory {wt}/SEED/<n>/ (n = 1, 2):
 Rules and environment:
   * No network. In every shell call first run: export GOFLAGS=-mod=mod GOPROXY=off GOSUMDB=off GOTOOLCHAIN=local . Go 1.23 is the toolchain; all dependencies are in the module cache. Do not modify go.mod/go.sum (if `go` rewrites go.sum, `git checkout go.sum`).
   * The existing tests must still pass with each mutation applied (without your demonstration file): at the very least run `go build ./...` and `go test -vet=off -count=1` for every package under x/ and app/ whose code you changed or that imports it closely (e.g. the module's keeper package and its callers such as x/liquidationsV2, x/auctionsV2, x/rewards where relevant). If an existing test fails because of your change, pick another change. Running the entire suite takes roughly 10-15 minutes (`go test -vet=off -count=1 ./...`); do run it once per final mutation if you can afford it, and say in meta.json what you ran.
-  * Each mutation is developed and verified separately, starting from a clean tree (`git stash`/`git checkout -- .` between them). Leave the worktree clean of source modifications at the end (only the SEED/ directory and nothing else untracked besides it; remove your demo test files from the package directories after copying them into SEED/).
+  * Each mutation is developed and verified separately, starting from a clean tree (`git checkout -- .` between them; never use `git stash`: the stash is shared with other worktrees of this repository). Leave the worktree clean of source modifications at the end (only the SEED/ directory and nothing else untracked besides it; remove your demo test files from the package directories after copying them into SEED/).
   * Existing keeper tests (x/*/keeper/*_test.go) show how to set up an in-memory app (app.Setup), create apps/assets/pairs, fund accounts and call msg servers; reuse those patterns in your demonstration.
   * Do not weaken or edit existing tests. Do not touch files ending in _test.go except to add your own new demonstration file.
 
